@@ -526,9 +526,24 @@ def rule_alloc(progs, tier, scope=r"^jq::", name="ALLOC"):
                 for sname, argi in SINKS.items():
                     if c.name.endswith(sname):
                         sink = (sname, argi)
-                if sink is None or sink[1] >= len(c.args):
+                a = None
+                if sink is None and (c.name.endswith("Iterator::collect") or c.name.endswith("FromIterator<T>>::from_iter") or c.name.endswith("iter::FromIterator::from_iter")) and c.args:
+                    # collect() over a `0..n` range pre-allocates n elements (exact size hint)
+                    ipl = op_place(c.args[0])
+                    if ipl is not None:
+                        isl = backward_slice(f, ipl[0], max_nodes=40)
+                        dfs = local_defs(f)
+                        for l in isl.locals:
+                            for bi, kind, p in dfs.get(l, []):
+                                if kind == "rv" and p[0] == "agg" and p[1].get("k") == "adt" and p[1]["path"].endswith("ops::Range") and len(p[2]) == 2:
+                                    a = p[2][1]
+                                    sink = ("Iterator::collect over 0..n", 0)
+                if sink is None:
                     continue
-                a = c.args[sink[1]]
+                if a is None:
+                    if sink[1] >= len(c.args):
+                        continue
+                    a = c.args[sink[1]]
                 pl = op_place(a)
                 if pl is None:
                     continue
